@@ -87,6 +87,10 @@ func pcvEqual(a, b ledger.PostCommitVolumes) bool {
 
 // txEqual compares what the ledger reports of a transaction. Wall-clock stamps
 // (inserted_at / updated_at) are compared only when strict is set.
+// ignoreTimes makes the comparisons skip every wall-clock value (two runs of the same
+// requests at different instants are compared).
+var ignoreTimes = false
+
 func txEqual(a, b *ledger.Transaction, strict bool) bool {
 	if (a.ID == nil) != (b.ID == nil) || (a.ID != nil && *a.ID != *b.ID) {
 		return false
@@ -94,13 +98,13 @@ func txEqual(a, b *ledger.Transaction, strict bool) bool {
 	if !postingsEqual(a.Postings, b.Postings) || !metaEqual(a.Metadata, b.Metadata) || a.Reference != b.Reference || a.Template != b.Template {
 		return false
 	}
-	if !a.Timestamp.Equal(b.Timestamp) {
+	if !ignoreTimes && !a.Timestamp.Equal(b.Timestamp) {
 		return false
 	}
 	if (a.RevertedAt == nil) != (b.RevertedAt == nil) {
 		return false
 	}
-	if a.RevertedAt != nil && !a.RevertedAt.Equal(*b.RevertedAt) {
+	if !ignoreTimes && a.RevertedAt != nil && !a.RevertedAt.Equal(*b.RevertedAt) {
 		return false
 	}
 	if !pcvEqual(a.PostCommitVolumes, b.PostCommitVolumes) {
@@ -170,7 +174,7 @@ func stateDiff(a, b *mState, strict bool) string {
 		if !ok {
 			return "accounts"
 		}
-		if !metaEqual(x.Metadata, y.Metadata) || !x.FirstUsage.Equal(y.FirstUsage) {
+		if !metaEqual(x.Metadata, y.Metadata) || (!ignoreTimes && !x.FirstUsage.Equal(y.FirstUsage)) {
 			return "accounts"
 		}
 		if strict && (!x.InsertionDate.Equal(y.InsertionDate) || !x.UpdatedAt.Equal(y.UpdatedAt)) {
